@@ -60,7 +60,7 @@ def cubes(tier):
     if tier == 'quick':
         n, k, L, depth, nadds, price = 2, 3, 3, 3, 2, 3
     else:
-        n, k, L, depth, nadds, price = 3, 4, 4, 4, 2, 7
+        n, k, L, depth, nadds, price = 3, 4, 3, 4, 2, 7
     for op in 'ARMCQPBXS':
         out.append({'seq': op, 'pre': {'N': n, 'K': k}, 'match_unwind': L, 'pop_unwind': k + L + 1, 'qty_mode': 'full',
                     'price': price, 'positive_quantities': True, 'family': 'one-op-from-arbitrary-state (arbitrary counters)',
